@@ -58,7 +58,18 @@ def direct_fuzz(L, n, seed):
             res = L.FUNC(*args)
         except Exception as e:  # noqa: BLE001
             res = e
-        pairs.append(L.encode(reg, before, res, args))
+        try:
+            pairs.append(L.encode(reg, before, res, args))
+        except NotImplementedError:
+            raise
+        except Exception as e:  # noqa: BLE001
+            # the implementation returned something the encoder cannot represent (e.g. left a value unset):
+            # counted as a disagreement of this call, never as a failure of the check
+            try:
+                line = L.encode(reg, before, RuntimeError("unencodable"), args)[0]
+            except Exception:  # noqa: BLE001
+                line = getattr(L, "HANDLER", L.NAME)
+            pairs.append((line, f"E:encode:{type(e).__name__}"))
     return compare_batch(L, reg, pairs)
 
 
